@@ -22,7 +22,8 @@ pub struct Uri { _p: u8 }
 #[verifier::external_body]
 pub struct Version { _p: u8 }
 #[verifier::external_body]
-pub struct RequestInfo { _p: u8 }
+#[derive(Clone, Copy)]
+pub struct HttpVersion { _p: u8 }
 #[verifier::external_body]
 pub struct InputPath<'a> { _p: &'a u8 }
 #[verifier::external_body]
@@ -57,10 +58,18 @@ pub broadcast axiom fn ax_input_path_is_the_string<'a>(s: &'a str)
 pub uninterp spec fn wrapped<B>(r: Request<B>) -> Request<Body>;
 #[verifier::external_body]
 pub fn request_wrap_body(r: Request<Incoming>) -> (w: Request<Body>) ensures w == wrapped(r) { unimplemented!() }
-impl RequestInfo {
+pub uninterp spec fn req_version<B>(r: Request<B>) -> HttpVersion;
+pub uninterp spec fn req_headers<B>(r: Request<B>) -> HeaderMap;
+impl<B> Request<B> {
     #[verifier::external_body]
-    pub fn new<B>(request: &Request<B>, remote_addr: SocketAddr) -> (r: RequestInfo) { unimplemented!() }
+    pub fn version(&self) -> (r: HttpVersion) ensures r == req_version(*self) { unimplemented!() }
+    #[verifier::external_body]
+    pub fn headers(&self) -> (r: &HeaderMap) ensures *r == req_headers(*self) { unimplemented!() }
 }
+/// Clone of the http types: the copy equals the original
+impl Clone for Method { #[verifier::external_body] fn clone(&self) -> (r: Method) ensures r == *self { unimplemented!() } }
+impl Clone for Uri { #[verifier::external_body] fn clone(&self) -> (r: Uri) ensures r == *self { unimplemented!() } }
+impl Clone for HeaderMap { #[verifier::external_body] fn clone(&self) -> (r: HeaderMap) ensures r == *self { unimplemented!() } }
 
 /// versioning.rs: VersionPolicy::request_version (under contract in unit V3)
 #[verifier::external_body]
@@ -89,9 +98,19 @@ impl<Context: ServerContext> HttpRouter<Context> {
 /// Its PRECONDITION is the obligation "whenever a handler is invoked, ...": it is proved at the single call
 /// site in http_request_handle.  Its postcondition only marks the response as the handler's.
 pub uninterp spec fn produced_by_handler(r: Response) -> bool;
-pub open spec fn handler_may_run<C: ServerContext>(handler: Arc<dyn RouteHandler<C>>, rqctx: RequestContext<C>, request: Request<Body>) -> bool {
+/// C09: "each handler invocation sees only its own request's data, including the method, URI, headers and peer
+/// address exposed in its request context"
+pub open spec fn shows_this_request(info: RequestInfo, request: Request<Body>, remote_addr: SocketAddr) -> bool {
+    &&& info.method == req_method(request)
+    &&& info.uri == req_uri(request)
+    &&& info.version == req_version(request)
+    &&& info.headers == req_headers(request)
+    &&& info.remote_addr == remote_addr
+}
+pub open spec fn handler_may_run<C: ServerContext>(handler: Arc<dyn RouteHandler<C>>, rqctx: RequestContext<C>, request: Request<Body>, remote_addr: SocketAddr) -> bool {
     let st = *rqctx.server;
     let ver = policy_version(st.version_policy, request);
+    &&& shows_this_request(rqctx.request, request, remote_addr)
     &&& ver is Ok
     &&& ({ let route = route_of(st.router, req_method(request), uri_path(req_uri(request)), ver->Ok_0);
            &&& route is Ok
@@ -99,8 +118,8 @@ pub open spec fn handler_may_run<C: ServerContext>(handler: Arc<dyn RouteHandler
            &&& rqctx.endpoint == route->Ok_0.endpoint })
 }
 #[verifier::external_body]
-pub fn run_handler_to_completion<C: ServerContext>(handler: Arc<dyn RouteHandler<C>>, rqctx: RequestContext<C>, request: Request<Body>) -> (r: Result<Response, HandlerError>)
-    requires handler_may_run(handler, rqctx, request)
+pub fn run_handler_to_completion<C: ServerContext>(handler: Arc<dyn RouteHandler<C>>, rqctx: RequestContext<C>, request: Request<Body>, Ghost(remote_addr): Ghost<SocketAddr>) -> (r: Result<Response, HandlerError>)
+    requires handler_may_run(handler, rqctx, request, remote_addr)
     ensures r is Ok ==> produced_by_handler(r->Ok_0)
 { unimplemented!() }
 
